@@ -104,6 +104,8 @@ def main():
     os.makedirs(os.path.join(ROOT, ".build", "tools"), exist_ok=True)
     gname = CFG["checks"][cid]["group"]
     exe = build_group(gname)
+    for g2 in CFG["checks"][cid].get("extra_groups", []):
+        os.environ["VERIF_BIN_" + g2] = build_group(g2)
     os.makedirs(os.path.join(ROOT, "evidence"), exist_ok=True)
     if REPO != "/repo":
         os.environ["VERIF_OUT"] = os.path.join(build_dir(), "out")
